@@ -47,3 +47,191 @@ Theorem C01_stream_is_contiguous_segment : forall evs k0,
     (cdone c = true -> creg c = false /\ conce c = true)) (cs s).
 Proof. intros evs k0. exact (Proofs.Buffer.Inv_erun evs (init k0) (Proofs.Buffer.Inv_init k0)). Qed.
 Print Assumptions C01_stream_is_contiguous_segment.
+
+(* ================================================================================================================
+   Extensions (proofs in Proofs/BufferMore.v).
+   Schedules with ARBITRARY cleaners: [Proofs.BufferMore.gev] is an event of Model/Buffer.v ([GEv e]) or one run of
+   cleanupLogic with an arbitrary cleaner function f ([GShift f], i.e. [clean_with f], only while the buffer is open) — a
+   different f at every run if the schedule says so (SetCleanerConfig).  [Proofs.BufferMore.grun] runs such a schedule;
+   [erun] is the special case (first theorem).
+   ================================================================================================================ *)
+From BB.Proofs Require BufferMore.
+
+Theorem C01_schedules_are_a_special_case : forall evs s,
+  erun s evs = Proofs.BufferMore.grun s (map Proofs.BufferMore.GEv evs).
+Proof. exact Proofs.BufferMore.erun_is_grun. Qed.
+Print Assumptions C01_schedules_are_a_special_case.
+
+(* one event of a generalised schedule, spelled out *)
+Theorem C01_generalised_event : forall s e f,
+  Proofs.BufferMore.gstep s (Proofs.BufferMore.GEv e) = estep s e /\
+  Proofs.BufferMore.gstep s (Proofs.BufferMore.GShift f) = (if bclosed s then s else clean_with f s, None).
+Proof. exact Proofs.BufferMore.gstep_def. Qed.
+Print Assumptions C01_generalised_event.
+
+(* the put order, with any cleaners running: the log only grows, by the batches of the successful Puts *)
+Theorem C01_put_order_any_cleaners : forall gs s,
+  Proofs.Buffer.Inv s ->
+  log (fst (Proofs.BufferMore.grun s gs)) = log s ++ Proofs.BufferMore.gbatches s gs.
+Proof. exact Proofs.BufferMore.grun_log. Qed.
+Print Assumptions C01_put_order_any_cleaners.
+
+Theorem C01_values_never_change_any_cleaners : forall gs s p v,
+  Proofs.Buffer.Inv s -> nth_error (log s) p = Some v -> nth_error (log (fst (Proofs.BufferMore.grun s gs))) p = Some v.
+Proof. exact Proofs.BufferMore.grun_log_stable. Qed.
+Print Assumptions C01_values_never_change_any_cleaners.
+
+(* the contiguous-segment invariant of C01_stream_is_contiguous_segment, with any cleaners running *)
+Theorem C01_stream_is_contiguous_segment_any_cleaners : forall gs k0,
+  let s := fst (Proofs.BufferMore.grun (init k0) gs) in
+  base s <= length (log s) /\
+  Forall (fun c =>
+    cstart c <= ccommit c /\ ccommit c + cdelta c <= chigh c /\ chigh c <= length (log s) /\
+    (forall p, In p (chist c) <-> cstart c <= p < chigh c) /\
+    firstn (cdelta c) (chist c) = rev (seq (ccommit c) (cdelta c)) /\
+    (cdone c = true -> creg c = false /\ conce c = true)) (cs s).
+Proof. exact (fun gs k0 => Proofs.BufferMore.Inv_reachable_g k0 gs). Qed.
+Print Assumptions C01_stream_is_contiguous_segment_any_cleaners.
+
+(* a Commit is permanent, with any cleaners running: whatever a consumer receives later lies at or beyond the offset it
+   had committed, and at or beyond its start *)
+Theorem C01_committed_never_returned_again_any_cleaners : forall gs s c k s1 s2 v,
+  Proofs.Buffer.Inv s -> getc s c = Some k ->
+  s1 = fst (Proofs.BufferMore.grun s gs) -> step s1 (OGet c) = (s2, RVal v) ->
+  exists k1, getc s1 c = Some k1 /\ ccommit k <= ccommit k1 /\
+             nth_error (log s1) (ccommit k1 + cdelta k1) = Some v /\ cstart k <= ccommit k1 + cdelta k1.
+Proof. exact Proofs.BufferMore.committed_never_returned_again_g. Qed.
+Print Assumptions C01_committed_never_returned_again_any_cleaners.
+
+(* ---- "starts at the oldest value still retained when the consumer was created" ---- *)
+
+(* NewConsumer on an open buffer: the new consumer gets the next id; its start and committed offset are the current base
+   (the absolute index of the oldest retained value), nothing read yet; nothing else changes; and its first Get returns
+   the oldest retained value — the head of Slice() = skipn base log — or parks if nothing is retained. *)
+Theorem C01_new_consumer_starts_at_oldest_retained : forall s,
+  bclosed s = false ->
+  let c := length (cs s) in
+  let s' := fst (step s ONew) in
+  snd (step s ONew) = RId c /\ getc s' c = Some (c_new (base s)) /\
+  log s' = log s /\ base s' = base s /\ (forall c', c' < c -> getc s' c' = getc s c') /\
+  snd (step s' (OGet c)) = match nth_error (skipn (base s) (log s)) 0 with Some v => RVal v | None => REmpty end.
+Proof. exact Proofs.BufferMore.new_consumer_spec. Qed.
+Print Assumptions C01_new_consumer_starts_at_oldest_retained.
+
+(* the first successful Get a consumer ever makes (empty history) reads the position of its start offset *)
+Theorem C01_first_read_is_start : forall s c k s' v,
+  Proofs.Buffer.Inv s -> getc s c = Some k -> chist k = [] -> step s (OGet c) = (s', RVal v) ->
+  ccommit k + cdelta k = cstart k /\ nth_error (log s) (cstart k) = Some v.
+Proof. exact Proofs.BufferMore.first_read_is_start. Qed.
+Print Assumptions C01_first_read_is_start.
+
+(* Over every schedule gs1 ++ NewConsumer :: gs2 (any cleaners): the consumer created by that NewConsumer (s1 = the state
+   in which it is created) has, in the final state s2, start = base of s1; every position it ever read is at or beyond
+   that; its first read, if any, is exactly that position; the first occurrences in its history are base s1, base s1 + 1,
+   ... without gap; and the value at its start is the oldest value retained in s1 (when there was one). *)
+Theorem C01_consumer_starts_at_base_of_creation : forall k0 gs1 gs2,
+  let s1 := fst (Proofs.BufferMore.grun (init k0) gs1) in
+  bclosed s1 = false ->
+  let c := length (cs s1) in
+  let s2 := fst (Proofs.BufferMore.grun s1 (Proofs.BufferMore.GEv (EOp ONew) :: gs2)) in
+  getc s1 c = None /\
+  exists k, getc s2 c = Some k /\ cstart k = base s1 /\
+    (chist k = [] \/ exists l', chist k = l' ++ [base s1]) /\
+    (forall p, In p (chist k) -> base s1 <= p) /\
+    Proofs.BufferMore.firsts (chist k) = seq (base s1) (chigh k - base s1) /\
+    (forall v, nth_error (skipn (base s1) (log s1)) 0 = Some v -> nth_error (log s2) (base s1) = Some v).
+Proof. exact Proofs.BufferMore.consumer_starts_reachable. Qed.
+Print Assumptions C01_consumer_starts_at_base_of_creation.
+
+(* a consumer's start is never ahead of the base (it was the base once, and the base only grows) *)
+Theorem C01_start_never_ahead_of_base : forall k0 gs,
+  let s := fst (Proofs.BufferMore.grun (init k0) gs) in Forall (fun k => cstart k <= base s) (cs s).
+Proof. exact Proofs.BufferMore.start_le_base_reachable. Qed.
+Print Assumptions C01_start_never_ahead_of_base.
+
+(* ---- "no reordering; a value re-read after a rollback counted once" ---- *)
+
+(* In every reachable state (any schedule, any cleaners), for every consumer: wherever its history (newest first) is
+   split as l1 ++ p :: l2 — p read right after the reads l2 — p is at least the start and at most the high-water mark
+   of l2 (one past the largest position in l2, the start if l2 is empty); p was read before iff it is below that mark;
+   and a p not read before IS that mark: new positions arrive in increasing order, one at a time, without gap.
+   Hence the first occurrences, oldest first ([Proofs.BufferMore.firsts] drops every repeat), are exactly
+   start, start+1, ..., high-1; the first read of all is the start; chigh is the high-water mark of the history. *)
+Theorem C01_stream_order : forall k0 gs c k,
+  let s := fst (Proofs.BufferMore.grun (init k0) gs) in
+  getc s c = Some k ->
+  (forall l1 p l2, chist k = l1 ++ p :: l2 ->
+     cstart k <= p <= fold_right Nat.max (cstart k) (map S l2) /\
+     (In p l2 <-> p < fold_right Nat.max (cstart k) (map S l2)) /\
+     (~ In p l2 -> p = fold_right Nat.max (cstart k) (map S l2))) /\
+  Proofs.BufferMore.firsts (chist k) = seq (cstart k) (chigh k - cstart k) /\
+  (chist k = [] \/ exists l', chist k = l' ++ [cstart k]) /\
+  chigh k = fold_right Nat.max (cstart k) (map S (chist k)).
+Proof. exact Proofs.BufferMore.stream_order_reachable. Qed.
+Print Assumptions C01_stream_order.
+
+(* [firsts]: the first occurrences of a history given newest first, listed oldest first *)
+Theorem C01_firsts_def : forall p l,
+  Proofs.BufferMore.firsts [] = [] /\
+  Proofs.BufferMore.firsts (p :: l) =
+    if existsb (Nat.eqb p) l then Proofs.BufferMore.firsts l else Proofs.BufferMore.firsts l ++ [p].
+Proof. exact Proofs.BufferMore.firsts_def. Qed.
+Print Assumptions C01_firsts_def.
+
+(* A successful Get (which reads position p = committed offset + reads since, C01_get_returns_log_at_cursor) advances
+   the cursor by one, and: if p is the high-water mark, p was never read before and the mark moves to p+1; if p is below
+   the mark, p is a re-read and the mark stays. *)
+Theorem C01_get_new_or_reread : forall s c k,
+  Proofs.Buffer.Inv s -> getc s c = Some k ->
+  let p := ccommit k + cdelta k in
+  ccommit (c_get k p) + cdelta (c_get k p) = S p /\
+  (p = chigh k -> ~ In p (chist k) /\ chigh (c_get k p) = S p) /\
+  (p < chigh k -> In p (chist k) /\ chigh (c_get k p) = chigh k).
+Proof. exact Proofs.BufferMore.get_new_or_reread_state. Qed.
+Print Assumptions C01_get_new_or_reread.
+
+(* Re-reads happen only after a Rollback: if a consumer's cursor is at its high-water mark (next Get returns a new
+   position), it still is after any single event — any operation of any thread, a cleaner run with any cleaner, a
+   shutdown step — except a Rollback of that very consumer; and no event other than that Rollback increases the distance
+   between cursor and mark (each re-read Get decreases it by one, see above, until the re-reads have caught up). *)
+Theorem C01_reread_only_after_rollback : forall s g c k k',
+  getc s c = Some k -> getc (fst (Proofs.BufferMore.gstep s g)) c = Some k' ->
+  ccommit k + cdelta k = chigh k ->
+  ccommit k' + cdelta k' = chigh k' \/ g = Proofs.BufferMore.GEv (EOp (ORollback c)).
+Proof. exact Proofs.BufferMore.reread_only_after_rollback. Qed.
+Print Assumptions C01_reread_only_after_rollback.
+
+Theorem C01_distance_to_high_water : forall s g c k k',
+  Proofs.Buffer.Inv s -> getc s c = Some k -> getc (fst (Proofs.BufferMore.gstep s g)) c = Some k' ->
+  g <> Proofs.BufferMore.GEv (EOp (ORollback c)) ->
+  chigh k' - (ccommit k' + cdelta k') <= chigh k - (ccommit k + cdelta k).
+Proof. exact Proofs.BufferMore.distance_to_high_water. Qed.
+Print Assumptions C01_distance_to_high_water.
+
+(* what a single event does to one consumer's cursor, mark and history: a Rollback of it resets the reads-since counter,
+   a successful Get of it reads at the cursor, anything else leaves cursor, mark and history alone *)
+Theorem C01_event_effect_on_cursor : forall s g c k k',
+  getc s c = Some k -> getc (fst (Proofs.BufferMore.gstep s g)) c = Some k' ->
+  (g = Proofs.BufferMore.GEv (EOp (ORollback c)) /\ k' = c_rollback k /\ cdelta k <> 0) \/
+  (g = Proofs.BufferMore.GEv (EOp (OGet c)) /\ k' = c_get k (ccommit k + cdelta k)) \/
+  (ccommit k' + cdelta k' = ccommit k + cdelta k /\ chigh k' = chigh k /\ chist k' = chist k /\ ccommit k <= ccommit k').
+Proof. exact Proofs.BufferMore.gstep_cursor. Qed.
+Print Assumptions C01_event_effect_on_cursor.
+
+(* a consumer's record only moves forward under every schedule: same start, committed offset and high-water mark never
+   decrease, and the history is only ever extended (nothing once delivered is rewritten) *)
+Theorem C01_history_only_extended : forall gs s c k,
+  Proofs.Buffer.Inv s -> getc s c = Some k ->
+  exists k', getc (fst (Proofs.BufferMore.grun s gs)) c = Some k' /\
+    cstart k' = cstart k /\ ccommit k <= ccommit k' /\ chigh k <= chigh k' /\ (exists l, chist k' = l ++ chist k).
+Proof. exact Proofs.BufferMore.history_only_extended. Qed.
+Print Assumptions C01_history_only_extended.
+
+(* [ordered start history] (used in the strengthened invariant, Properties/C12.v C12_strong_invariant_reachable): every
+   position of the history (newest first) is at least the start and at most the high-water mark of the reads before it *)
+Theorem C01_ordered_def : forall st p l,
+  (Proofs.BufferMore.ordered st [] <-> True) /\
+  (Proofs.BufferMore.ordered st (p :: l) <->
+   st <= p <= fold_right Nat.max st (map S l) /\ Proofs.BufferMore.ordered st l).
+Proof. exact Proofs.BufferMore.ordered_def. Qed.
+Print Assumptions C01_ordered_def.
